@@ -15,7 +15,7 @@ env = dict(os.environ); env["CARGO_NET_OFFLINE"] = "true"; env.pop("RUSTUP_TOOLC
 rc = 0
 try:
     for crate in sorted({o.crate for o in obs}):
-        cmd = ["cargo", "kani", "--target-dir", kani.TARGET_DIR, "--only-codegen", "-Z", "function-contracts", "-Z", "stubbing",
+        cmd = ["cargo", "kani", "--target-dir", kani.BASE_TARGET, "--only-codegen", "-Z", "function-contracts", "-Z", "stubbing",
                "--harness", "__verif_no_such_harness__"]
         p = subprocess.run(cmd, cwd=os.path.join(scratch_repo, crate), env=env, capture_output=True, text=True)
         print("warm %s rc=%d" % (crate, p.returncode))
